@@ -25,9 +25,7 @@ class PyvisLeg(R.RenderLeg):
             if H.kind_of(o) in H.VERTEX_KINDS and i % 3 == 0:
                 setattr(o, "__make_pyvis_net_i", 0 if not any(o is m for m in members) else "mine")
 
-    def oracle(self, case, obs):
-        if obs is None:
-            return []
+    def phase_oracle(self, case, obs):
         if not obs["unchanged"]:
             return ["make_pyvis_net changed the graph (attributes before/after differ)"]
         snap = obs["snap"]
